@@ -293,7 +293,30 @@ def consensus_model(ctx):
     sc['__class__'] = cls
     family1 = [(size, combo) for size in (1, 2, 3) for combo in itertools.combinations_with_replacement(sorted(k_ for k_ in frs if k_.startswith('f')), size)]
     family2 = [(size, combo) for size in (2, 3, 4) for combo in itertools.combinations_with_replacement(sorted(k_ for k_ in frs if k_.startswith('q')), size)]
+    # third family: wide molecules (more positions than any table size a restructured tally may start with): three fragments over 700 positions
+    wide = {'wA': {('c', p_): ('A', 30) for p_ in range(700)}, 'wB': {('c', p_): (('A', 'C', 'G')[p_ % 3], 30) for p_ in range(700)}, 'wC': {('c', p_): (('C', 'A')[p_ % 2], 30) for p_ in range(0, 700, 2)}}
+    frs.update(wide)
     try:
+        for members in (['wA', 'wB', 'wC'], ['wC', 'wB', 'wA']):
+            n += 1
+            got = run_function(f, [Mol(members)], env=sc, call_hook=hook, budget=4000000)
+            want = {}
+            for p_ in range(700):
+                votes = {}
+                for m_ in members:
+                    c_ = frs[m_].get(('c', p_))
+                    if c_ is not None:
+                        votes[c_[0]] = votes.get(c_[0], 0) + 1
+                top = max(votes.values())
+                win = [b_ for b_, k_ in votes.items() if k_ == top]
+                if len(win) == 1:
+                    want[('c', p_)] = win[0]
+            got = {tuple(k_): v_ for k_, v_ in dict(got).items()}
+            if got != want:
+                diff = sorted(k_[1] for k_ in set(got) | set(want) if got.get(k_) != want.get(k_))
+                ctx._consensus_model = (False, n, {'molecule': 'three fragments covering 700 positions', 'first positions whose consensus differs from the strict majority': diff[:5],
+                                                   'returned there': [got.get(('c', p_)) for p_ in diff[:5]], 'strict majority there': [want.get(('c', p_)) for p_ in diff[:5]]})
+                return ctx._consensus_model
         for size, combo in family1 + family2:
             if True:
                 for order in ((combo, combo[::-1]) if size > 1 else (combo,)):
